@@ -258,6 +258,20 @@ CLAIMS["C18"] = (
     "Trusted: positions sorted within chromosome groups (is_grouped_vrnt guard), numpy linspace endpoints exact.",
     "DESIGN.md §4 C18")
 
+CLAIMS["C14"] = (
+    "path language over the replicate loop (one block per parallel list on every path), role typing of the record lists against the frame columns, value-numbered "
+    "record value and heritability formulas, derived-state invalidation rule, index-space rule for the name-keyed alignment loop (ast)",
+    "Decides the structural clauses: phenotype() loops zip(range(nenv), nrep) x range(env_nrep) and on every path appends exactly one ntaxa-row block to each column "
+    "list, each list reaching the column of its role (taxa, taxa_grp, env = counter+1, rep = counter+1, values stacked on axis 0); value = gegv(pgmat).unscale() + "
+    "env effect (once per environment) + replicate effect (once per replicate) + error (ntaxa rows per replicate), each a zero-mean self.rng.multivariate_normal "
+    "with diag(own variance vector) - so zero variances give exactly the true value; nothing derived from a variance vector survives a change of it; "
+    "var_err = (1-h)/h * var_A (var_G for H2); estimate() groups by taxa (and group) with 'mean' over all trait columns, and with a genotype matrix copies, for "
+    "position i of gtobj.taxa, the aggregate row found by that taxon's NAME (table built from the aggregate's own taxa column), leaves NaN otherwise and labels "
+    "the result from the genotype object; TruePhenotyping / TrueBreedingValue return unscaled gegv / gebv. NOT decided: convergence of realised variances "
+    "(distributional), pandas group-by semantics, row-order invariance as a runtime fact.",
+    "Trusted: pandas groupby/concat, numpy multivariate_normal with a zero covariance returns the mean.",
+    "DESIGN.md §4 C14")
+
 NOT_YET = "rule set not built yet (build in progress; see DESIGN.md §8)"
 NA = {}
 
